@@ -1,9 +1,16 @@
 package arp
 
+import "strings"
+
 // VerifH_C14_arpJSON: the generated encoder with one string field an arbitrary ASCII string of L bytes.
 func VerifH_C14_arpJSON() {
 	L := verifParam("L", 1)
 	r := &ScanResult{IP: "10.0.0.1", MAC: "00:11:22:33:44:55", Vendor: "Acme \"Net\" Inc"}
+	if pad := verifParam("PAD", 0); pad > 0 {
+		// a long vendor name (the OUI table has names of 70+ characters): the encoding exceeds
+		// the first buffer chunk of the JSON writer
+		r.Vendor = strings.Repeat("Long Name & Co ", pad) + "\"Ltd\""
+	}
 	sym := c14ASCII("s", L)
 	switch verifParam("FIELD", 0) {
 	case 0:
